@@ -98,7 +98,7 @@ class Chooser:
 class ExecResult:
     """What one execution reports back to the explorer."""
 
-    __slots__ = ('violations', 'outcome', 'states', 'nontrivial', 'transitions', 'capped', 'sample', 'extra')
+    __slots__ = ('violations', 'outcome', 'states', 'nontrivial', 'transitions', 'capped', 'sample', 'extra', 'extra_obs')
 
     def __init__(self) -> None:
         self.violations: List[dict] = []  # each: {'clause':..., 'features': {...}, 'detail': ...}
@@ -109,6 +109,7 @@ class ExecResult:
         self.capped = False
         self.sample: Any = None
         self.extra: Dict[str, int] = {}
+        self.extra_obs: Any = None
 
 
 def digest(obj: Any) -> str:
